@@ -150,6 +150,9 @@ class SrcSchema:
 def base_type(ty):
     """'Option<si::Mass>' -> ('Option', 'si::Mass'); 'Vec<f64>' -> ('Vec','f64'); else (None, ty)"""
     ty = ty.strip()
+    m = re.match(r"^(?:std::collections::)?HashMap\s*<(.*)>$", ty, flags=re.S)
+    if m:
+        return "HashMap", m.group(1).strip()
     m = re.match(r"^(Option|Vec|Box)\s*<(.*)>$", ty, flags=re.S)
     if m:
         return m.group(1), m.group(2).strip()
